@@ -1190,6 +1190,75 @@ func (n *Node) Uses(name string) bool {
 	return found
 }
 
+// FreeVars returns the root name of every variable reference in the AST that
+// is not bound by an enclosing for expression or template for directive (one
+// entry per reference, sorted). Collections of for constructs are evaluated
+// outside the scope they open.
+func (n *Node) FreeVars() []string {
+	var out []string
+	var walk func(m *Node, bound map[string]int)
+	var parts func(ps []TPart, bound map[string]int)
+	with := func(bound map[string]int, names []string, f func()) {
+		for _, nm := range names {
+			if nm != "" {
+				bound[nm]++
+			}
+		}
+		f()
+		for _, nm := range names {
+			if nm != "" {
+				bound[nm]--
+			}
+		}
+	}
+	parts = func(ps []TPart, bound map[string]int) {
+		for _, p := range ps {
+			switch p.Kind {
+			case TFor:
+				walk(p.Expr, bound)
+				with(bound, []string{p.KeyVar, p.ValVar}, func() { parts(p.Then, bound) })
+			default:
+				walk(p.Expr, bound)
+				parts(p.Then, bound)
+				parts(p.Else, bound)
+			}
+		}
+	}
+	walk = func(m *Node, bound map[string]int) {
+		if m == nil {
+			return
+		}
+		switch m.Kind {
+		case KVar:
+			if bound[m.Name] == 0 {
+				out = append(out, m.Name)
+			}
+			return
+		case KForTuple, KForObject:
+			walk(m.Coll, bound)
+			with(bound, []string{m.KeyVar, m.ValVar}, func() {
+				walk(m.KeyE, bound)
+				walk(m.ValE, bound)
+				walk(m.Cond, bound)
+			})
+			return
+		}
+		for _, k := range m.Kids {
+			walk(k, bound)
+		}
+		for _, k := range m.Keys {
+			walk(k.Expr, bound)
+		}
+		for _, st := range m.Tail {
+			walk(st.Index, bound)
+		}
+		parts(m.Parts, bound)
+	}
+	walk(n, map[string]int{})
+	sort.Strings(out)
+	return out
+}
+
 // Shrink greedily replaces the AST by one of its sub-expressions as long as
 // the predicate keeps holding; it returns the smallest AST found.
 func Shrink(n *Node, still func(*Node) bool) *Node {
